@@ -74,7 +74,7 @@ REQUIRED_LABELS = {"all": ["compiler:Xstrict", "compiler:Xunitary", "compiler:Xc
                            "repeated_s2", "permutation_unitary", "dagger", "resynthesised",
                            # generator audit: each of these is produced some hundreds of times per quick run at every seed
                            "compiler_arg:default", "modes:dict", "optimize", "two_digit_mode_index", "value_just_outside_documented_atol",
-                           "layout_without_target_line"]}
+                           "layout_without_target_line", "program_shorter_than_open_loop", "mutation:arr_gap"]}
 
 # ----------------------------------------------------------------------------------------------
 # device data copied verbatim from tests/frontend/compilers/conftest.py
@@ -1781,6 +1781,63 @@ def check_tdm(ctx, case):
 
 
 # ----------------------------------------------------------------------------------------------
+# tdm.utils.vacuum_padding: "all loops are emptied from optical pulses at the end of the program"
+# ----------------------------------------------------------------------------------------------
+@st.composite
+def pad_case(draw):
+    m = draw(st.sampled_from([2, 3, 5, 8, 12, 20, 30, 35, 36, 37, 45]))
+    loops = []
+    for k in range(3):
+        # the two documented ways to use a loop (tdm.utils.borealis_gbs): "open" = the first `delay` beamsplitter arguments are 0 so that the
+        # loop fills up (ALL of them when the program has no more modes than the delay), then generic angles; "bypass" = pi/2 throughout
+        kind = draw(st.sampled_from(["open", "open", "bypass"]))
+        if kind == "open":
+            z = min(BOREALIS_DELAYS[k], m)
+            bs = [0.0] * z + [draw(gen.fl(0.2, 1.3)) for _ in range(m - z)]
+        else:
+            bs = [PI / 2] * m
+        loops.append({"kind": kind, "bs": bs, "r": [draw(gen.fl(-3.0, 3.0)) for _ in range(m)]})
+    return {"m": m, "s": [draw(st.sampled_from([0.3, 0.5, 0.8])) for _ in range(m)], "loops": loops}
+
+
+def check_pad(ctx, case):
+    """the padded arguments, played on the three delay loops as an explicit loop (every pulse a fresh mode), must deliver every photon
+    to the detector before the program ends: sum of <n> over the measured pulses == sum sinh^2(s) (the loops are lossless)"""
+    from strawberryfields.tdm import utils
+
+    m = case["m"]
+    ga = {"Sgate": list(case["s"]), "loops": {k: {"Rgate": list(lp["r"]), "BSgate": list(lp["bs"])} for k, lp in enumerate(case["loops"])}}
+    labels = ["vacuum_padding", "modes:%d" % m] + ["loop%d:%s" % (k, lp["kind"]) for k, lp in enumerate(case["loops"])]
+    if any(lp["kind"] == "open" and m < BOREALIS_DELAYS[k] for k, lp in enumerate(case["loops"])):
+        labels.append("program_shorter_than_open_loop")
+    ctx.note(case, nontrivial=True, labels=labels)
+    try:
+        out = utils.vacuum_padding(ga, delays=list(BOREALIS_DELAYS))
+    except Exception as exc:  # pylint: disable=broad-except
+        return ctx.crash(exc, "vacuum_padding")
+    arrays = [list(out["Sgate"])]
+    for k in range(3):
+        arrays += [list(out["loops"][k]["Rgate"]), list(out["loops"][k]["BSgate"])]
+    T = len(arrays[0])
+    if any(len(a) != T for a in arrays):
+        return ctx.fail("vacuum_padding.lengths_differ", "padded lists have lengths %s" % [len(a) for a in arrays])
+    if [float(x) for x in arrays[0] if x != 0] != [float(x) for x in case["s"]]:
+        return ctx.fail("vacuum_padding.squeezing_changed", "the non-zero squeezing values are not the ones passed in")
+    n = BOREALIS_POS
+    specs = [["Sgate", [("arr", 0), 0.0], [n[0]], {}]]
+    for i in range(3):
+        specs.append(["Rgate", [("arr", 2 * i + 1)], [n[i]], {}])
+        specs.append(["BSgate", [("arr", 2 * i + 2), PI / 2], [n[i + 1], n[i]], {}])
+    L = run_loop(specs, arrays, T, BOREALIS_N)
+    Nm, _ = L.NM(list(range(T)))  # pulse t is measured at time bin t (register position 0)
+    got = float(np.real(np.trace(Nm)))
+    want = float(sum(np.sinh(x) ** 2 for x in case["s"]))
+    if abs(got - want) > 1e-8 * (1 + want):
+        return ctx.fail("vacuum_padding.light_left_in_the_loops", "%d modes, loops %s: the measured pulses carry %.6f of %.6f photons when the padded program ends "
+                        "(padded length %d)" % (m, [lp["kind"] for lp in case["loops"]], got, want, T))
+    return None
+
+
 SUBS = [
     Sub("x_compile", check=check_x, strategy=lambda ctx: x_case(), examples={"quick": 900, "thorough": 6000},
         shards={"quick": 4, "thorough": 14}, budget={"quick": 100, "thorough": 1500},
@@ -1792,6 +1849,10 @@ SUBS = [
     Sub("tdm_generic", check=check_tdm, strategy=lambda ctx: tdm_case(), examples={"quick": 500, "thorough": 5000},
         shards={"quick": 1, "thorough": 1}, budget={"quick": 100, "thorough": 1500},
         rule="generated one/two-loop layouts (constants or ranged placeholders per argument) for the TDM / TD2 compilers, programs with one mutation"),
+    Sub("vacuum_padding", check=check_pad, strategy=lambda ctx: pad_case(), examples={"quick": 60, "thorough": 600},
+        shards={"quick": 1, "thorough": 4}, budget={"quick": 100, "thorough": 900},
+        rule="tdm.utils.vacuum_padding for 2..45 computational modes on the three Borealis loops (each loop used as tdm.utils.borealis_gbs uses it: opened for its "
+             "delay and then generic, or bypassed): explicit-loop reference, every photon must reach the detector before the padded program ends"),
 ]
 
 MANIFEST = {
